@@ -552,6 +552,25 @@ def run_inproc(ds, root, label):
     return calc, snapshot(out)
 
 
+def other_commands(ds, root, system):
+    """`cij run-static` (three modes) and `cij fill` through click's CliRunner in THIS process, on the data set's own files"""
+    from click.testing import CliRunner
+    import cij.cli.static, cij.cli.fill
+    d = os.path.join(root, "other-cmds")
+    synth.write_all(d, ds)
+    i1, i2 = os.path.join(d, ds.settings["qha"]["input"]), os.path.join(d, ds.settings["elast"]["input"])
+    done = []
+    with e2e.quiet():
+        for args, label in ((["-I", "none"], "run-static"), (["-I", "volume", "-n", "21"], "run-static -I volume"),
+                            (["-I", "pressure", "-n", "11", "--delta-p", "0.5"], "run-static -I pressure")):
+            r = CliRunner().invoke(cij.cli.static.main, [i1, i2] + args + (["-s", system] if system else []))
+            done.append(label + ("" if r.exit_code == 0 else f" (exit {r.exit_code})"))
+        if system:
+            r = CliRunner().invoke(cij.cli.fill.main, ["-s", system, i2])
+            done.append("fill" + ("" if r.exit_code == 0 else f" (exit {r.exit_code})"))
+    return done
+
+
 def write_again(calc, root, label):
     out = os.path.join(root, label)
     os.makedirs(out)
@@ -582,8 +601,11 @@ def random_reads(calc, rng, n):
     """random order of property access on both bases, every property read at least twice somewhere; returns failures"""
     fails, first = [], {}
     names = [("tv", p) for p in BASE_PROPS + ["pressures", "v_array"]] + [("tp", p) for p in BASE_PROPS + ["volumes", "p_array"]]
-    seq = [names[int(i)] for i in rng.integers(0, len(names), size=n)]
-    seq = seq + [seq[int(i)] for i in rng.integers(0, len(seq), size=max(3, n // 3))]
+    # every property once (first values), a random stretch, then every property again in another order: whatever a later read
+    # (or the second calculate()) does to an array handed out or cached earlier shows up in the final sweep
+    seq = [names[int(i)] for i in rng.permutation(len(names))]
+    seq = seq + [names[int(i)] for i in rng.integers(0, len(names), size=n)]
+    seq = seq + [names[int(i)] for i in rng.permutation(len(names))]
     with e2e.quiet(), numpy.errstate(all="ignore"):
         for k, (base, name) in enumerate(seq):
             if k == len(seq) // 2:        # calculate() again in the middle of the history
@@ -601,6 +623,34 @@ def random_reads(calc, rng, n):
                 fails.append((f"read-twice:{base}:{name}", f"{base}.{name} read twice returns different arrays", {"position": k}))
             first.setdefault((base, name), v)
     return fails, len(seq)
+
+
+def access_order(ds, root, label):
+    """Two FRESH calculators on the same files (nothing written, nothing read before): one reads every property of both bases in
+    a fixed order, the other in the reverse order — so for any two properties each is read before the other once.  A value that
+    depends on what was read earlier (a cached array another property later overwrites, a getter that finishes someone else's
+    computation) differs between the two.  Returns failures."""
+    import cij.core.calculator as cc
+    fails = []
+    names = [("tv", p) for p in BASE_PROPS + ["pressures", "v_array"]] + [("tp", p) for p in BASE_PROPS + ["volumes", "p_array"]]
+    path = synth.write_all(os.path.join(root, label, "data"), ds)
+    got = []
+    with e2e.quiet(), numpy.errstate(all="ignore"):
+        for order in (names, names[::-1]):
+            calc = cc.Calculator(path)
+            vals = {}
+            for base, name in order:
+                try:
+                    vals[(base, name)] = read_base(calc, base, name)
+                except AttributeError:
+                    continue
+            got.append(vals)
+            del calc
+    for key in got[0]:
+        if key in got[1] and not same(got[0][key], got[1][key]):
+            fails.append((f"access-order:{key[0]}:{key[1]}", f"{key[0]}.{key[1]} read first and read last on fresh calculators differ: "
+                          "the value depends on the order of property access", None))
+    return fails, 2 * len(names)
 
 
 def config_isolation(a_settings, b_settings):
@@ -727,6 +777,16 @@ def eval_e2e(seed: int, variant: int, thorough: bool, nseeds: int, time_left: fl
                 gc.collect()
                 ca2, fa2 = run_inproc(a, root, "inA-afterB-release")
                 check("inA2", refA, fa2, "interleave:B-then-A:release:files-differ", "A computed after B (released) in one process differs from A in a fresh process")
+                # ---- other commands of the package earlier in the same process (run-static in every mode, fill): "process history"
+                other = other_commands(a, root, system)
+                stats["other_commands_in_history"] = other
+                ca3, fa3 = run_inproc(a, root, "inA-after-commands")
+                check("inA3", refA, fa3, "history:other-commands-then-run:files-differ",
+                      f"A computed after {', '.join(other)} ran in the same process differs from A in a fresh process")
+                del ca3
+                of, no = access_order(a, root, "access-order")
+                stats["access_order_reads"] = no
+                for f in of[:4]: fail(*f)
                 rf, nr = random_reads(ca2, sub_rng(seed, 5, variant), 60 if thorough else 30)
                 stats["base_reads"] = nr
                 for f in rf: fail(*f)
